@@ -165,6 +165,8 @@ type analysis struct {
 	// RootChanOps: channel operations of the root package reachable from (*Session).Serve
 	RootChanOps []chanOp
 	HasRootOps  bool
+	// Responses: how every response a function obtains is disposed of (respfacts.go)
+	Responses []respFact
 	// Gos: every go statement in scope (gofacts.go)
 	Gos []goFact
 	// Accepted: size-dependent partial operations accepted by an idiom or the allow list
@@ -278,6 +280,7 @@ func analyseScopeDerived(repo string, scope map[string]func(file string) bool, a
 			an.RootChanOps = rops
 			an.HasRootOps = true
 		}
+		an.Responses = append(an.Responses, respFactsOf(l, scope[rel], fset)...)
 		an.Gos = append(an.Gos, goFactsOf(l, scope[rel], fset)...)
 		an.Pages = append(an.Pages, pageTurnsOf(l, scope[rel])...)
 		an.Cancels = append(an.Cancels, cancelFactsOf(l, scope[rel])...)
@@ -355,6 +358,7 @@ func Facts(repo string) (string, error) {
 		b.WriteString(leanLockFacts(nil, err))
 		b.WriteString(leanHandlerLockFacts(nil, false))
 		b.WriteString(leanRootChanOps(nil, false))
+		b.WriteString(leanRespFacts(nil, false))
 		b.WriteString(leanGoFacts(nil, false))
 		b.WriteString(leanPageTurns(nil, false))
 		b.WriteString(leanHeldSends(nil, false))
@@ -404,6 +408,7 @@ func Facts(repo string) (string, error) {
 	}
 	b.WriteString(leanHandlerLockFacts(an.HandlerLocks, true))
 	b.WriteString(leanRootChanOps(an.RootChanOps, an.HasRootOps))
+	b.WriteString(leanRespFacts(an.Responses, true))
 	b.WriteString(leanGoFacts(an.Gos, true))
 	b.WriteString(leanPageTurns(an.Pages, true))
 	b.WriteString(leanHeldSends(an.HeldSends, true))
